@@ -59,6 +59,8 @@ class MacroParser:
             self.tok_is_vec = pfields[self.tok_field[0]]["ty"].startswith("std::vec::Vec<")
         elif len(self.iter_field) == 1 and len(self.peek_field) == 1 and len(pfields) == 2:
             self.shape = "lookahead"
+        elif len(pfields) == 1 and pfields[0]["ty"].startswith("std::iter::Peekable<") and "token_stream::IntoIter" in pfields[0]["ty"]:
+            self.shape = "peekable"
         if self.shape is None:
             self.why = "parser::Parser { tokens, index } or { token iterator, lookahead } (fields %s)" % [f["ty"] for f in pfields]
             return
@@ -76,6 +78,9 @@ class MacroParser:
     def parser_value(self, toks):
         fs = [None, None]
         store = sim.Tup(list(toks))
+        if self.shape == "peekable":
+            # std's Peekable over the token iterator: a by-value iterator whose `peek` looks without advancing
+            return Adt("parser::Parser", 0, [Adt("sim::SliceIter", 0, [store, 0, "by-value"])])
         if self.shape == "lookahead":
             # as Parser::new leaves it: the first token loaded into the lookahead slot
             fs[self.iter_field[0]] = Adt("sim::SliceIter", 0, [store, min(1, len(toks)), "by-value"])
@@ -92,6 +97,9 @@ class MacroParser:
         if self.shape == "indexed":
             at = pvv.fields[self.idx_field[0]]
             return at if isinstance(at, int) else None
+        if self.shape == "peekable":
+            it = S._deref(pvv.fields[0], path)
+            return it.fields[1] if isinstance(it, Adt) and it.adt == "sim::SliceIter" else None
         it = S._deref(pvv.fields[self.iter_field[0]], path)
         pk = S._deref(pvv.fields[self.peek_field[0]], path)
         if isinstance(it, Adt) and it.adt == "sim::SliceIter" and isinstance(pk, Adt) and pk.adt.endswith("Option"):
